@@ -36,6 +36,39 @@ func runC04(c *eng.Ctx, tier string) {
 	c04Rollback(c, k)
 	c04Gen(c, k)
 	c04Create(c, k)
+	c04CommitPoint(c, k)
+}
+
+// R-C04-7: the replacement of the file is the commit point of a save: once
+// the atomic write returned nil, the save routine must not report an error
+// (its callers would roll the served state back although the file already
+// holds the new state).
+func c04CommitPoint(c *eng.Ctx, k *kvAnalysis) {
+	for _, f := range fileWriters(c) {
+		eng.Instrs(f, func(in ssa.Instruction) {
+			call, ok := in.(*ssa.Call)
+			if !ok || !eng.CalleeIs(&call.Call, "tailscale.com/atomicfile", "WriteFile") {
+				return
+			}
+			ei := errResultIndex(f)
+			if ei < 0 {
+				return
+			}
+			hit, path := eng.Search(f, call, eng.AssumeErr(call, true), nil, func(x ssa.Instruction) bool {
+				r, isR := x.(*ssa.Return)
+				if !isR {
+					return false
+				}
+				return !eng.IsNilConst(eng.Origin(eng.RetVals(r)[ei]))
+			})
+			c.Check(hit == nil, "R-C04-7", f, call.Pos(), "after a successful "+eng.CallStr(&call.Call), "the save routine returns nil: nothing fallible follows the commit point (otherwise a failed call leaves the file in the post-call state while the served state is rolled back)", func() string {
+				if hit == nil {
+					return ""
+				}
+				return "error return at " + c.P.Pos(hit.Pos()) + " reachable after the file was replaced: " + c.P.PathStr(path)
+			}())
+		})
+	}
 }
 
 // R-C04-1
